@@ -75,7 +75,7 @@ func CaseInsensitiveCompare(a, b []byte) bool {
 		return false
 	}
 	for i := 0; i < len(a); i++ {
-		if a[i]|0x20 != b[i]|0x20 {
+		if bytesconv.ToLowerTable[a[i]] != bytesconv.ToLowerTable[b[i]] {
 			return false
 		}
 	}
